@@ -143,6 +143,9 @@ func NewHmacDrbgPrng(newHash func() hash.Hash, entropySource io.Reader, security
 		prng.entropySource = rand.Reader
 	}
 	prng.securityStrength = selectSecurityStrength(securityStrength)
+	if gm && securityStrength < 32 {
+		return nil, errors.New("drbg: invalid security strength")
+	}
 
 	// Get entropy input
 	entropyInput := make([]byte, prng.securityStrength)
